@@ -8,6 +8,7 @@
 // report, a signal, abort/terminate kills the worker (the driver keys it from the report and restarts after the
 // journaled case); a non-std exception is reported here; a hang is caught by the driver's per-case watchdog.
 #include "common/gkw.hpp"
+#include "common/gdeck.hpp"
 #include <opm/input/eclipse/EclipseState/EclipseState.hpp>
 #include <opm/input/eclipse/EclipseState/SummaryConfig/SummaryConfig.hpp>
 #include <opm/input/eclipse/Schedule/Schedule.hpp>
@@ -161,7 +162,13 @@ int main(int argc, char** argv) {
 
     rep.run_cases([&](long idx, Rng& rng) {
         std::string base, origin;
-        if (rng.chance(0.15)) {
+        if (rng.chance(0.2)) {
+            // complete generated model (70 schedule keyword templates, MSW, UDQ, ACTIONX, network ...): reaches the handlers
+            gdeck::Opts o;
+            gdeck::Generator gen(rng, o);
+            gdeck::Model m = gen.generate();
+            base = m.text(); origin = "gdeck-model";
+        } else if (rng.chance(0.15)) {
             // multi keyword deck from the grammar
             GenOpts g; g.pHostile = 0.5;
             DeckT deck;
@@ -198,7 +205,7 @@ int main(int argc, char** argv) {
         static const char* DN[] = {"refused-by-parser", "deck-only", "eclipsestate", "schedule", "summaryconfig"};
         rep.cover("depth_reached", DN[depth]);
         for (auto& o : ops) rep.cover("mutation", o);
-        rep.cover("seed_kind", origin == "grammar" ? "grammar" : (origin.find("seed raw") != std::string::npos ? "shipped-raw" : "shipped-flattened"));
+        rep.cover("seed_kind", origin == "gdeck-model" ? "generated-model" : origin == "grammar" ? "grammar" : (origin.find("seed raw") != std::string::npos ? "shipped-raw" : "shipped-flattened"));
         rep.case_done(vh::fnv(txt), depth >= 1 || !what.empty());
         if (idx < 1) rep.sample("origin " + origin + ", mutations " + join(ops) + ", reached " + DN[depth] + (what.empty() ? "" : ", exception: " + what.substr(0, 200)));
     });
